@@ -41,12 +41,30 @@ structure Inv (cfg : Cfg) (s : State) : Prop where
       pb.noColor = pp.noColor ∧ (pp.noColor = false → pb.conf = pp.conf)
   enums : cfg.keyByObj = true → ∀ e ec a v cols, s.enums.lookup e = some ec → ec.lookup (a, v) = some cols →
     ∃ p, s.heap.lookup a = some p ∧ cols = p.colors
+  /-- a cached palette has the colours the configuration gives now (the cache is dropped when the map changes) -/
+  cur : ∀ k c cls a p ci, s.confs.lookup k = some c → c.cache.lookup cls = some a → s.heap.lookup a = some p →
+    cfg.classes[cls]? = some ci → p.colors = snapshot cfg ci c
+  /-- and so have the sub-palettes memoised by a cached palette -/
+  subcur : ∀ k c cls pa c2 b pb ci2, s.confs.lookup k = some c → c.cache.lookup cls = some pa →
+    s.subs.lookup (pa, c2) = some b → s.heap.lookup b = some pb → cfg.classes[c2]? = some ci2 →
+    pb.colors = snapshot cfg ci2 c
+  /-- the global configuration exists -/
+  glob : (s.confs.lookup s.global).isSome
+  /-- the synced `global_palette` shows the colours of the global configuration -/
+  gp : ∀ c ci, s.confs.lookup s.global = some c → cfg.classes[cfg.gpClass]? = some ci → s.gp = snapshot cfg ci c
 
 /-! ### colours and configuration steps -/
 
 theorem getColor_congr (dflt : SyntId) (c c' : Conf) (h1 : c'.smap = c.smap) (h2 : c'.noColor = c.noColor)
     (x : SyntId) : getColor dflt c' x = getColor dflt c x := by
   unfold getColor; rw [h1, h2]
+
+theorem snapshot_congr (cfg : Cfg) (ci : ClassInfo) {c c' : Conf} (h1 : c'.smap = c.smap) (h2 : c'.noColor = c.noColor) :
+    snapshot cfg ci c' = snapshot cfg ci c := by
+  simp only [snapshot]
+  apply List.map_congr_left
+  intro x _
+  exact getColor_congr _ c c' h1 h2 x
 
 theorem colorsOk_congr {cfg : Cfg} {c c' : Conf} (h1 : c'.smap = c.smap) (h2 : c'.noColor = c.noColor)
     (h3 : c'.closed = c.closed) {ci : ClassInfo} {cols : List Color} (h : ColorsOk cfg c ci cols) :
@@ -129,6 +147,19 @@ theorem setConf_rest (cfg : Cfg) (s : State) (k : ConfId) (old new : Conf) :
   · split <;> simp
   · simp
 
+theorem syncGp_fields (cfg : Cfg) (s : State) :
+    (syncGp cfg s).confs = s.confs ∧ (syncGp cfg s).heap = s.heap ∧ (syncGp cfg s).subs = s.subs ∧
+    (syncGp cfg s).ncCache = s.ncCache ∧ (syncGp cfg s).enums = s.enums ∧ (syncGp cfg s).held = s.held ∧
+    (syncGp cfg s).global = s.global := by
+  unfold syncGp
+  split <;> simp
+
+theorem syncGp_gp (cfg : Cfg) (s : State) : ∀ c ci, s.confs.lookup s.global = some c →
+    cfg.classes[cfg.gpClass]? = some ci → (syncGp cfg s).gp = snapshot cfg ci c := by
+  intro c ci h1 h2
+  unfold syncGp
+  rw [h1, h2]
+
 theorem lookup_heap_cons {heap : List (Addr × Pal)} {a a' : Addr} {p p' : Pal}
     (ha : a ∉ heap.map Prod.fst) (h : heap.lookup a' = some p') : List.lookup a' ((a, p) :: heap) = some p' := by
   have : a' ≠ a := by intro e; subst e; exact ha (key_of_lookup h)
@@ -152,11 +183,11 @@ theorem palOk_step {cfg : Cfg} (hcfg : cfgOk cfg = true) {s : State} (hinv : Inv
   · exact hcol hcolored c2 hc2
 
 theorem inv_setConf {cfg : Cfg} (hcfg : cfgOk cfg = true) {s : State} (hinv : Inv cfg s) {k : ConfId} {c c' : Conf}
-    (hk : s.confs.lookup k = some c) (hok : ConfOk cfg c') (hs : ConfStep cfg c c') (old : Conf) :
-    Inv cfg (setConf cfg s k old c') := by
-  obtain ⟨hheap, hsubs, hncc, henums, _, _⟩ := setConf_rest cfg s k old c'
-  have hconfs := setConf_confs cfg s k old c'
-  refine ⟨?_, ?_, ?_, ?_, ?_, ?_, ?_⟩
+    (hk : s.confs.lookup k = some c) (hok : ConfOk cfg c') (hs : ConfStep cfg c c') :
+    Inv cfg (setConf cfg s k c c') := by
+  obtain ⟨hheap, hsubs, hncc, henums, _, hglob⟩ := setConf_rest cfg s k c c'
+  have hconfs := setConf_confs cfg s k c c'
+  refine ⟨?_, ?_, ?_, ?_, ?_, ?_, ?_, ?_, ?_, ?_, ?_⟩
   · intro k' c2 h
     rw [hconfs, lookup_putConf] at h
     split at h
@@ -185,11 +216,67 @@ theorem inv_setConf {cfg : Cfg} (hcfg : cfgOk cfg = true) {s : State} (hinv : In
   · intro cls a h; rw [hncc] at h; rw [hheap]; exact hinv.nc cls a h
   · intro pa c2 b h; rw [hsubs] at h; rw [hheap]; exact hinv.subs pa c2 b h
   · intro hko e ec a v cols h1 h2; rw [henums] at h1; rw [hheap]; exact hinv.enums hko e ec a v cols h1 h2
+  · intro k' c2 cls a p ci h hc hp hci
+    rw [hconfs, lookup_putConf] at h
+    rw [hheap] at hp
+    split at h
+    · cases h
+      obtain ⟨e1, e2⟩ := hs.keep cls a hc
+      rw [hinv.cur k c cls a p ci hk e2 hp hci]
+      exact (snapshot_congr cfg ci e1 hs.nc).symm
+    · exact hinv.cur k' c2 cls a p ci h hc hp hci
+  · intro k' c2 cls pa c3 b pb ci2 h hc hsb hp hci
+    rw [hconfs, lookup_putConf] at h
+    rw [hheap] at hp
+    rw [hsubs] at hsb
+    split at h
+    · cases h
+      obtain ⟨e1, e2⟩ := hs.keep cls pa hc
+      rw [hinv.subcur k c cls pa c3 b pb ci2 hk e2 hsb hp hci]
+      exact (snapshot_congr cfg ci2 e1 hs.nc).symm
+    · exact hinv.subcur k' c2 cls pa c3 b pb ci2 h hc hsb hp hci
+  · rw [hglob, hconfs, lookup_putConf]
+    split
+    · rfl
+    · exact hinv.glob
+  · intro c0 ci0 h1 h2
+    rw [hglob, hconfs, lookup_putConf] at h1
+    unfold setConf
+    simp only []
+    split
+    · -- re-synced
+      rename_i hcond
+      apply syncGp_gp
+      · simp only [putConf]
+        rw [← hcond.1]
+        have := lookup_putConf s k k c'
+        simp only [putConf, if_true] at this
+        rw [this]
+        rw [hcond.1] at h1
+        simp only [if_true] at h1
+        exact h1
+      · exact h2
+    · rename_i hcond
+      simp only [putConf]
+      split at h1
+      · rename_i hgk
+        cases h1
+        have hlen : c'.smap.length = c.smap.length := by
+          apply Classical.byContradiction
+          intro hne
+          exact hcond ⟨hgk.symm, hne⟩
+        rw [hinv.gp c ci0 (by rw [hgk]; exact hk) h2]
+        exact (snapshot_congr cfg ci0 (hs.same hlen).1 hs.nc).symm
+      · exact hinv.gp c0 ci0 h1 h2
 
 theorem inv_allocPal {cfg : Cfg} {s : State} (hinv : Inv cfg s) {a : Addr} {p : Pal}
     (ha : a ∉ s.heap.map Prod.fst) (hp : PalOk cfg s.confs p) (hl : (s.confs.lookup p.conf).isSome) :
     Inv cfg (allocPal s a p) := by
-  refine ⟨hinv.confs, ?_, ?_, ?_, ?_, ?_, ?_⟩
+  have old : ∀ a' p', List.lookup a' ((a, p) :: s.heap) = some p' → a' ∈ s.heap.map Prod.fst → s.heap.lookup a' = some p' := by
+    intro a' p' h hin
+    have : a' ≠ a := by intro e; rw [e] at hin; exact ha hin
+    rw [lookup_cons_ne _ _ this] at h; exact h
+  refine ⟨hinv.confs, ?_, ?_, ?_, ?_, ?_, ?_, ?_, ?_, hinv.glob, hinv.gp⟩
   · intro a' p' h
     simp only [allocPal] at h ⊢
     by_cases e : a' = a
@@ -212,14 +299,69 @@ theorem inv_allocPal {cfg : Cfg} {s : State} (hinv : Inv cfg s) {a : Addr} {p : 
   · intro hko e ec a' v cols h1 h2
     obtain ⟨p', h3, h4⟩ := hinv.enums hko e ec a' v cols h1 h2
     exact ⟨p', lookup_heap_cons ha h3, h4⟩
+  · intro k c cls a' p' ci h hc hp hci
+    obtain ⟨q, hq, _⟩ := hinv.cache k c cls a' h hc
+    exact hinv.cur k c cls a' p' ci h hc (old a' p' hp (key_of_lookup hq)) hci
+  · intro k c cls pa c2 b pb ci2 h hc hsb hp hci
+    obtain ⟨_, qb, _, hq, _⟩ := hinv.subs pa c2 b hsb
+    exact hinv.subcur k c cls pa c2 b pb ci2 h hc hsb (old b pb hp (key_of_lookup hq)) hci
 
 theorem inv_cachePal {cfg : Cfg} {s : State} (hinv : Inv cfg s) {k : ConfId} {cls : ClassId} {a : Addr} {p : Pal}
-    (hp : s.heap.lookup a = some p) (h1 : p.cls = cls) (h2 : p.conf = k) (h3 : p.noColor = false) :
+    (hp : s.heap.lookup a = some p) (h1 : p.cls = cls) (h2 : p.conf = k) (h3 : p.noColor = false)
+    (hcur : ∀ c ci, s.confs.lookup k = some c → cfg.classes[cls]? = some ci → p.colors = snapshot cfg ci c)
+    (hnomemo : ∀ c2, s.subs.lookup (a, c2) = none) :
     Inv cfg (cachePal s k cls a) := by
   unfold cachePal
   split
   · rename_i c hk
-    refine ⟨?_, ?_, ?_, ?_, hinv.nc, hinv.subs, hinv.enums⟩
+    refine ⟨?_, ?_, ?_, ?_, hinv.nc, hinv.subs, hinv.enums, ?_, ?_, ?_, ?_⟩
+    rotate_left 4
+    · intro k' c2 cls' a' p' ci h hc hp' hci
+      rw [lookup_putConf] at h
+      have hp'' : s.heap.lookup a' = some p' := hp'
+      split at h
+      · cases h
+        simp only [] at hc
+        by_cases e : cls' = cls
+        · subst e
+          rw [lookup_cons_eq] at hc; cases hc
+          rw [hp] at hp''; cases hp''
+          rw [hcur c ci hk hci]
+          exact (snapshot_congr cfg ci rfl rfl).symm
+        · rw [lookup_cons_ne _ _ e] at hc
+          rw [hinv.cur k c cls' a' p' ci hk hc hp'' hci]
+          exact (snapshot_congr cfg ci rfl rfl).symm
+      · exact hinv.cur k' c2 cls' a' p' ci h hc hp'' hci
+    · intro k' c2 cls' pa c3 b pb ci2 h hc hsb hpb hci
+      rw [lookup_putConf] at h
+      have hsb' : s.subs.lookup (pa, c3) = some b := hsb
+      have hpb' : s.heap.lookup b = some pb := hpb
+      split at h
+      · cases h
+        simp only [] at hc
+        by_cases e : cls' = cls
+        · subst e
+          rw [lookup_cons_eq] at hc; cases hc
+          rw [hnomemo c3] at hsb'; cases hsb'
+        · rw [lookup_cons_ne _ _ e] at hc
+          rw [hinv.subcur k c cls' pa c3 b pb ci2 hk hc hsb' hpb' hci]
+          exact (snapshot_congr cfg ci2 rfl rfl).symm
+      · exact hinv.subcur k' c2 cls' pa c3 b pb ci2 h hc hsb' hpb' hci
+    · show ((putConf s k _).confs.lookup s.global).isSome
+      rw [lookup_putConf]
+      split
+      · rfl
+      · exact hinv.glob
+    · intro c0 ci0 h1 h2
+      have h1' : (putConf s k { c with cache := (cls, a) :: c.cache }).confs.lookup s.global = some c0 := h1
+      rw [lookup_putConf] at h1'
+      show s.gp = _
+      split at h1'
+      · rename_i hgk
+        cases h1'
+        rw [hinv.gp c ci0 (by rw [hgk]; exact hk) h2]
+        exact (snapshot_congr cfg ci0 rfl rfl).symm
+      · exact hinv.gp c0 ci0 h1' h2
     · intro k' c2 h
       rw [lookup_putConf] at h
       split at h
@@ -257,7 +399,7 @@ theorem inv_cachePal {cfg : Cfg} {s : State} (hinv : Inv cfg s) {k : ConfId} {cl
 
 theorem inv_cacheNc {cfg : Cfg} {s : State} (hinv : Inv cfg s) {cls : ClassId} {a : Addr} {p : Pal}
     (hp : s.heap.lookup a = some p) (h1 : p.cls = cls) (h2 : p.noColor = true) : Inv cfg (cacheNc s cls a) := by
-  refine ⟨hinv.confs, hinv.pals, hinv.live, hinv.cache, ?_, hinv.subs, hinv.enums⟩
+  refine ⟨hinv.confs, hinv.pals, hinv.live, hinv.cache, ?_, hinv.subs, hinv.enums, hinv.cur, hinv.subcur, hinv.glob, hinv.gp⟩
   intro cls' a' h
   simp only [cacheNc] at h
   by_cases e : cls' = cls
@@ -266,14 +408,26 @@ theorem inv_cacheNc {cfg : Cfg} {s : State} (hinv : Inv cfg s) {cls : ClassId} {
 
 theorem inv_memoSub {cfg : Cfg} {s : State} (hinv : Inv cfg s) {pa b : Addr} {c : ClassId} {pp pb : Pal}
     (h1 : s.heap.lookup pa = some pp) (h2 : s.heap.lookup b = some pb) (h3 : pb.cls = c)
-    (h4 : pb.noColor = pp.noColor) (h5 : pp.noColor = false → pb.conf = pp.conf) :
+    (h4 : pb.noColor = pp.noColor) (h5 : pp.noColor = false → pb.conf = pp.conf)
+    (h6 : ∀ k cf cls ci2, s.confs.lookup k = some cf → cf.cache.lookup cls = some pa → cfg.classes[c]? = some ci2 →
+      pb.colors = snapshot cfg ci2 cf) :
     Inv cfg (memoSub s pa c b) := by
-  refine ⟨hinv.confs, hinv.pals, hinv.live, hinv.cache, hinv.nc, ?_, hinv.enums⟩
-  intro pa' c' b' h
-  simp only [memoSub] at h
-  by_cases e : (pa', c') = (pa, c)
-  · cases e; rw [lookup_cons_eq] at h; cases h; exact ⟨pp, pb, h1, h2, h3, h4, h5⟩
-  · rw [lookup_cons_ne _ _ e] at h; exact hinv.subs pa' c' b' h
+  refine ⟨hinv.confs, hinv.pals, hinv.live, hinv.cache, hinv.nc, ?_, hinv.enums, hinv.cur, ?_, hinv.glob, hinv.gp⟩
+  · intro pa' c' b' h
+    simp only [memoSub] at h
+    by_cases e : (pa', c') = (pa, c)
+    · cases e; rw [lookup_cons_eq] at h; cases h; exact ⟨pp, pb, h1, h2, h3, h4, h5⟩
+    · rw [lookup_cons_ne _ _ e] at h; exact hinv.subs pa' c' b' h
+  · intro k cf cls pa' c' b' pb' ci2 hk hc hsb hpb hci
+    simp only [memoSub] at hsb
+    have hpb' : s.heap.lookup b' = some pb' := hpb
+    by_cases e : (pa', c') = (pa, c)
+    · cases e
+      rw [lookup_cons_eq] at hsb; cases hsb
+      rw [h2] at hpb'; cases hpb'
+      exact h6 k cf cls ci2 hk hc hci
+    · rw [lookup_cons_ne _ _ e] at hsb
+      exact hinv.subcur k cf cls pa' c' b' pb' ci2 hk hc hsb hpb' hci
 
 /-! ### making palettes -/
 
@@ -284,35 +438,50 @@ configurations stay and keep their `closed` flag -/
 structure Frame (s s' : State) : Prop where
   heap : ∀ a p, s.heap.lookup a = some p → s'.heap.lookup a = some p
   confs : ∀ k c, s.confs.lookup k = some c → ∃ c', s'.confs.lookup k = some c' ∧ c'.closed = c.closed ∧
-    c'.noColor = c.noColor
+    c'.noColor = c.noColor ∧ c.smap.length ≤ c'.smap.length ∧
+    (c'.smap.length = c.smap.length → c'.smap = c.smap ∧
+      ∀ cls a, c.cache.lookup cls = some a → c'.cache.lookup cls = some a)
   subs : ∀ k b, s.subs.lookup k = some b → s'.subs.lookup k = some b
   enums : s'.enums = s.enums
 
-theorem Frame.refl (s : State) : Frame s s := ⟨fun _ _ h => h, fun _ c h => ⟨c, h, rfl, rfl⟩, fun _ _ h => h, rfl⟩
+theorem Frame.refl (s : State) : Frame s s :=
+  ⟨fun _ _ h => h, fun _ c h => ⟨c, h, rfl, rfl, Nat.le_refl _, fun _ => ⟨rfl, fun _ _ h => h⟩⟩, fun _ _ h => h, rfl⟩
 
 theorem Frame.trans {a b c : State} (h1 : Frame a b) (h2 : Frame b c) : Frame a c := by
   refine ⟨fun x p h => h2.heap x p (h1.heap x p h), ?_, fun k x h => h2.subs k x (h1.subs k x h), h2.enums.trans h1.enums⟩
   intro k c0 h
-  obtain ⟨c1, e1, e2, e2'⟩ := h1.confs k c0 h
-  obtain ⟨c2, e3, e4, e4'⟩ := h2.confs k c1 e1
-  exact ⟨c2, e3, e4.trans e2, e4'.trans e2'⟩
+  obtain ⟨c1, e1, e2, e2', l1, s1⟩ := h1.confs k c0 h
+  obtain ⟨c2, e3, e4, e4', l2, s2⟩ := h2.confs k c1 e1
+  refine ⟨c2, e3, e4.trans e2, e4'.trans e2', Nat.le_trans l1 l2, ?_⟩
+  intro hl
+  have q1 : c1.smap.length = c0.smap.length := by omega
+  have q2 : c2.smap.length = c1.smap.length := by omega
+  obtain ⟨a1, b1⟩ := s1 q1
+  obtain ⟨a2, b2⟩ := s2 q2
+  exact ⟨a2.trans a1, fun cls a hh => b2 cls a (b1 cls a hh)⟩
 
 theorem frame_setConf (cfg : Cfg) (s : State) (k : ConfId) (old new : Conf) (c : Conf)
-    (hk : s.confs.lookup k = some c) (h1 : new.closed = c.closed) (h2 : new.noColor = c.noColor) :
+    (hk : s.confs.lookup k = some c) (hs : ConfStep cfg c new) :
     Frame s (setConf cfg s k old new) := by
   obtain ⟨hheap, hsubs, _, henums, _, _⟩ := setConf_rest cfg s k old new
   refine ⟨fun a p h => by rw [hheap]; exact h, ?_, fun x b h => by rw [hsubs]; exact h, henums⟩
   intro k' c' h
   rw [setConf_confs, lookup_putConf]
   by_cases e : k' = k
-  · subst e; rw [hk] at h; cases h; exact ⟨new, by simp, h1, h2⟩
-  · exact ⟨c', by simp [e, h], rfl, rfl⟩
+  · subst e; rw [hk] at h; cases h
+    refine ⟨new, by simp, hs.closed, hs.nc, hs.len, ?_⟩
+    intro hl
+    obtain ⟨q1, q2⟩ := hs.same hl
+    exact ⟨q1, fun cls a hh => by rw [q2]; exact hh⟩
+  · exact ⟨c', by simp [e, h], rfl, rfl, Nat.le_refl _, fun _ => ⟨rfl, fun _ _ hh => hh⟩⟩
 
 theorem frame_allocPal (s : State) (a : Addr) (p : Pal) (ha : a ∉ s.heap.map Prod.fst) :
     Frame s (allocPal s a p) :=
-  ⟨fun _ _ h => lookup_heap_cons ha h, fun _ c h => ⟨c, h, rfl, rfl⟩, fun _ _ h => h, rfl⟩
+  ⟨fun _ _ h => lookup_heap_cons ha h,
+   fun _ c h => ⟨c, h, rfl, rfl, Nat.le_refl _, fun _ => ⟨rfl, fun _ _ hh => hh⟩⟩, fun _ _ h => h, rfl⟩
 
-theorem frame_cachePal (s : State) (k : ConfId) (cls : ClassId) (a : Addr) : Frame s (cachePal s k cls a) := by
+theorem frame_cachePal (s : State) (k : ConfId) (cls : ClassId) (a : Addr)
+    (hmiss : ∀ c, s.confs.lookup k = some c → c.cache.lookup cls = none) : Frame s (cachePal s k cls a) := by
   unfold cachePal
   split
   · rename_i c hk
@@ -321,12 +490,16 @@ theorem frame_cachePal (s : State) (k : ConfId) (cls : ClassId) (a : Addr) : Fra
     rw [lookup_putConf]
     by_cases e : k' = k
     · subst e; rw [hk] at h; cases h
-      exact ⟨{ c with cache := (cls, a) :: c.cache }, by simp, rfl, rfl⟩
-    · exact ⟨c', by simp [e, h], rfl, rfl⟩
+      refine ⟨{ c with cache := (cls, a) :: c.cache }, by simp, rfl, rfl, Nat.le_refl _, fun _ => ⟨rfl, ?_⟩⟩
+      intro cls' a' hh
+      simp only []
+      have : cls' ≠ cls := by intro e2; rw [e2, hmiss c hk] at hh; cases hh
+      rw [lookup_cons_ne _ _ this]; exact hh
+    · exact ⟨c', by simp [e, h], rfl, rfl, Nat.le_refl _, fun _ => ⟨rfl, fun _ _ hh => hh⟩⟩
   · exact Frame.refl s
 
 theorem frame_cacheNc (s : State) (cls : ClassId) (a : Addr) : Frame s (cacheNc s cls a) :=
-  ⟨fun _ _ h => h, fun _ c h => ⟨c, h, rfl, rfl⟩, fun _ _ h => h, rfl⟩
+  ⟨fun _ _ h => h, fun _ c h => ⟨c, h, rfl, rfl, Nat.le_refl _, fun _ => ⟨rfl, fun _ _ hh => hh⟩⟩, fun _ _ h => h, rfl⟩
 
 theorem registerCls_ok {cfg : Cfg} (hcfg : cfgOk cfg = true) {cls : ClassId} {c c' : Conf} (hc : ConfOk cfg c)
     (h : registerCls cfg cls c = .ok c') : ConfOk cfg c' ∧ ConfStep cfg c c' :=
@@ -343,7 +516,8 @@ theorem mkPalette_spec {cfg : Cfg} (hcfg : cfgOk cfg = true) {alloc : Alloc} (ha
     {cls : ClassId} {k : ConfId} {nc : Bool} {s s' : State} {a : Addr} (hinv : Inv cfg s)
     (h : mkPalette cfg alloc cls k nc s = .ok (s', a)) :
     Inv cfg s' ∧ Frame s s' ∧
-    ∃ p, s'.heap.lookup a = some p ∧ p.cls = cls ∧ p.noColor = nc ∧ (nc = false → p.conf = k) := by
+    (∃ p, s'.heap.lookup a = some p ∧ p.cls = cls ∧ p.noColor = nc ∧ (nc = false → p.conf = k)) ∧
+    (nc = false → ∃ c1, s'.confs.lookup k = some c1 ∧ c1.cache.lookup cls = some a) := by
   unfold mkPalette at h
   simp only [bind, Except.bind, getClass, getConf] at h
   cases hci : cfg.classes[cls]? with
@@ -362,13 +536,13 @@ theorem mkPalette_spec {cfg : Cfg} (hcfg : cfgOk cfg = true) {alloc : Alloc} (ha
     | ok c' =>
       simp only [hr] at h
       obtain ⟨hc', hstep⟩ := registerCls_ok hcfg hc hr
-      have hinv1 := inv_setConf hcfg hinv hk hc' hstep c
-      have hfr1 := frame_setConf cfg s k c c' c hk hstep.closed hstep.nc
+      have hinv1 := inv_setConf hcfg hinv hk hc' hstep
+      have hfr1 := frame_setConf cfg s k c c' c hk hstep
       split at h
       · rename_i a0 hnc
         cases h
         obtain ⟨p, hp1, hp2, hp3⟩ := hinv1.nc cls a hnc
-        exact ⟨hinv1, hfr1, p, hp1, hp2, hp3, by simp⟩
+        exact ⟨hinv1, hfr1, ⟨p, hp1, hp2, hp3, by simp⟩, by simp⟩
       · cases h
         have ha := hal ((setConf cfg s k c c').heap.map Prod.fst)
         have hpal : PalOk cfg (setConf cfg s k c c').confs
@@ -383,7 +557,7 @@ theorem mkPalette_spec {cfg : Cfg} (hcfg : cfgOk cfg = true) {alloc : Alloc} (ha
             ⟨cls, k, true, ci.localSyntax.map fun _ => []⟩).heap.lookup
             (alloc ((setConf cfg s k c c').heap.map Prod.fst)) = some ⟨cls, k, true, ci.localSyntax.map fun _ => []⟩ := by
           simp [allocPal]
-        refine ⟨inv_cacheNc hinv2 hlk rfl rfl, ?_, ⟨cls, k, true, ci.localSyntax.map fun _ => []⟩, hlk, rfl, rfl, by simp⟩
+        refine ⟨inv_cacheNc hinv2 hlk rfl rfl, ?_, ⟨⟨cls, k, true, ci.localSyntax.map fun _ => []⟩, hlk, rfl, rfl, by simp⟩, by simp⟩
         exact (hfr1.trans (frame_allocPal _ _ _ ha)).trans (frame_cacheNc _ _ _)
   | false =>
     simp only [Bool.false_eq_true, if_false] at h
@@ -391,18 +565,23 @@ theorem mkPalette_spec {cfg : Cfg} (hcfg : cfgOk cfg = true) {alloc : Alloc} (ha
     · rename_i a0 hcache
       cases h
       obtain ⟨p, hp1, hp2, hp3, hp4⟩ := hinv.cache k c cls a hk hcache
-      exact ⟨hinv, Frame.refl s, p, hp1, hp2, hp4, fun _ => hp3⟩
+      exact ⟨hinv, Frame.refl s, ⟨p, hp1, hp2, hp4, fun _ => hp3⟩, fun _ => ⟨c, hk, hcache⟩⟩
     · cases hr : registerCls cfg cls c with
       | error e => simp [hr] at h
       | ok c' =>
         simp only [hr] at h
         cases h
         obtain ⟨hc', hstep⟩ := registerCls_ok hcfg hc hr
-        have hinv1 := inv_setConf hcfg hinv hk hc' hstep c
-        have hfr1 := frame_setConf cfg s k c c' c hk hstep.closed hstep.nc
+        have hinv1 := inv_setConf hcfg hinv hk hc' hstep
+        have hfr1 := frame_setConf cfg s k c c' c hk hstep
         have ha := hal ((setConf cfg s k c c').heap.map Prod.fst)
         have hk1 : (setConf cfg s k c c').confs.lookup k = some c' := by
           rw [setConf_confs, lookup_putConf]; simp
+        have hmiss' : c'.cache.lookup cls = none := by
+          rename_i hmiss
+          rcases hstep.cache with e | e
+          · rw [e]; exact hmiss
+          · rw [e]; rfl
         have hpal : PalOk cfg (setConf cfg s k c c').confs ⟨cls, k, false, snapshot cfg ci c'⟩ := by
           refine ⟨ci, hci, by simp [snapshot], snapshot_valid hc' ci, by simp, ?_⟩
           intro _ c2 hc2
@@ -414,9 +593,41 @@ theorem mkPalette_spec {cfg : Cfg} (hcfg : cfgOk cfg = true) {alloc : Alloc} (ha
             ⟨cls, k, false, snapshot cfg ci c'⟩).heap.lookup
             (alloc ((setConf cfg s k c c').heap.map Prod.fst)) = some ⟨cls, k, false, snapshot cfg ci c'⟩ := by
           simp [allocPal]
-        refine ⟨inv_cachePal hinv2 hlk rfl rfl rfl, ?_, ⟨cls, k, false, snapshot cfg ci c'⟩, ?_, rfl, rfl, fun _ => rfl⟩
-        · exact (hfr1.trans (frame_allocPal _ _ _ ha)).trans (frame_cachePal _ _ _ _)
-        · exact (frame_cachePal _ _ _ _).heap _ _ hlk
+        have hcur : ∀ c1 ci1, (allocPal (setConf cfg s k c c') (alloc ((setConf cfg s k c c').heap.map Prod.fst))
+            ⟨cls, k, false, snapshot cfg ci c'⟩).confs.lookup k = some c1 → cfg.classes[cls]? = some ci1 →
+            (⟨cls, k, false, snapshot cfg ci c'⟩ : Pal).colors = snapshot cfg ci1 c1 := by
+          intro c1 ci1 h1 h2
+          have h1' : (setConf cfg s k c c').confs.lookup k = some c1 := h1
+          rw [hk1] at h1'; cases h1'
+          rw [hci] at h2; cases h2
+          rfl
+        have hnomemo : ∀ c2, (allocPal (setConf cfg s k c c') (alloc ((setConf cfg s k c c').heap.map Prod.fst))
+            ⟨cls, k, false, snapshot cfg ci c'⟩).subs.lookup (alloc ((setConf cfg s k c c').heap.map Prod.fst), c2) = none := by
+          intro c2
+          cases hq : (allocPal (setConf cfg s k c c') (alloc ((setConf cfg s k c c').heap.map Prod.fst))
+              ⟨cls, k, false, snapshot cfg ci c'⟩).subs.lookup (alloc ((setConf cfg s k c c').heap.map Prod.fst), c2) with
+          | none => rfl
+          | some b0 =>
+            have hq' : (setConf cfg s k c c').subs.lookup (alloc ((setConf cfg s k c c').heap.map Prod.fst), c2) = some b0 := hq
+            obtain ⟨pp0, _, e1, _⟩ := hinv1.subs _ c2 b0 hq'
+            exact absurd (key_of_lookup e1) ha
+        have hmissS : ∀ c1, (allocPal (setConf cfg s k c c') (alloc ((setConf cfg s k c c').heap.map Prod.fst))
+            ⟨cls, k, false, snapshot cfg ci c'⟩).confs.lookup k = some c1 → c1.cache.lookup cls = none := by
+          intro c1 h1
+          have h1' : (setConf cfg s k c c').confs.lookup k = some c1 := h1
+          rw [hk1] at h1'; cases h1'
+          exact hmiss'
+        refine ⟨inv_cachePal hinv2 hlk rfl rfl rfl hcur hnomemo, ?_, ⟨⟨cls, k, false, snapshot cfg ci c'⟩, ?_, rfl, rfl, fun _ => rfl⟩, ?_⟩
+        · exact (hfr1.trans (frame_allocPal _ _ _ ha)).trans (frame_cachePal _ _ _ _ hmissS)
+        · exact (frame_cachePal _ _ _ _ hmissS).heap _ _ hlk
+        · intro _
+          refine ⟨{ c' with cache := (cls, alloc ((setConf cfg s k c c').heap.map Prod.fst)) :: c'.cache }, ?_, by simp⟩
+          unfold cachePal
+          have : (allocPal (setConf cfg s k c c') (alloc ((setConf cfg s k c c').heap.map Prod.fst))
+            ⟨cls, k, false, snapshot cfg ci c'⟩).confs.lookup k = some c' := hk1
+          rw [this]
+          simp only []
+          rw [lookup_putConf]; simp
 
 theorem getSub_spec {cfg : Cfg} (hcfg : cfgOk cfg = true) {alloc : Alloc} (hal : ValidAlloc alloc)
     {pa : Addr} {c : ClassId} {s s' : State} {b : Addr} (hinv : Inv cfg s)
@@ -444,8 +655,17 @@ theorem getSub_spec {cfg : Cfg} (hcfg : cfgOk cfg = true) {alloc : Alloc} (hal :
         obtain ⟨s1, b1⟩ := r
         simp only [hmk] at h
         cases h
-        obtain ⟨hinv1, hfr, pb, hb1, hb2, hb3, hb4⟩ := mkPalette_spec hcfg hal hinv hmk
-        refine ⟨inv_memoSub hinv1 (hfr.heap pa pp hpa) hb1 hb2 hb3 hb4, ?_, by simp [memoSub]⟩
+        obtain ⟨hinv1, hfr, ⟨pb, hb1, hb2, hb3, hb4⟩, hb5⟩ := mkPalette_spec hcfg hal hinv hmk
+        have h6 : ∀ k cf cls ci2, s1.confs.lookup k = some cf → cf.cache.lookup cls = some pa →
+            cfg.classes[c]? = some ci2 → pb.colors = snapshot cfg ci2 cf := by
+          intro k cf cls ci2 hk hc hci2
+          obtain ⟨pp', e1, _, e3, e4⟩ := hinv1.cache k cf cls pa hk hc
+          rw [hfr.heap pa pp hpa] at e1; cases e1
+          obtain ⟨c1, q1, q2⟩ := hb5 e4
+          rw [e3] at q1
+          rw [hk] at q1; cases q1
+          exact hinv1.cur k cf c _ pb ci2 hk q2 hb1 hci2
+        refine ⟨inv_memoSub hinv1 (hfr.heap pa pp hpa) hb1 hb2 hb3 hb4 h6, ?_, by simp [memoSub]⟩
         refine ⟨hfr.heap, hfr.confs, ?_, hfr.enums⟩
         intro k0 b0 h0
         have := hfr.subs k0 b0 h0
